@@ -78,58 +78,110 @@ def rle(flat):
 # independent reference terminal: a grid and a cursor with deferred wrap (col may be width+1 = "pending")
 
 class Ref(object):
-    def __init__(self, grid, row, col, pending, top, bot, width, height=25):
+    """Reference terminal: a grid, a cursor with deferred wrap (col may be width+1 = "pending") and the set of rows
+    that continue on the next row (logical lines).  Knows plain characters, CR, LF, BEL, TAB, HOME (11), CLS (12)."""
+
+    def __init__(self, grid, row, col, pending, top, bot, width, height=25, cont=()):
         self.g = [list(r) for r in grid]
         self.row, self.col = row, col + (1 if pending else 0)
         self.top, self.bot, self.w, self.h = top, bot, width, height
+        self.cont = set(cont)
 
     def scroll(self):
         del self.g[self.top - 1]
         self.g.insert(self.bot - 1, [32] * self.w)
+        self.cont = set(r - 1 for r in self.cont if self.top < r <= self.bot) | \
+            set(r for r in self.cont if not self.top <= r <= self.bot)
 
     def down(self):
         """to the start of the next row, scrolling the window when leaving it at the bottom"""
-        if self.row == self.h:
-            # a cursor parked on the bottom row re-enters the window at its last row, which scrolls
-            self.scroll()
-            self.row = self.bot
-        elif self.row >= self.bot:
+        if self.row == self.h or self.row >= self.bot:
             self.scroll()
             self.row = self.bot
         else:
             self.row += 1
         self.col = 1
 
+    def start_write(self):
+        """every write to the console first cuts the logical line at the cursor row"""
+        self.cont.discard(self.row)
+
+    def newline(self):
+        self.cont.discard(self.row)
+        self.down()
+
     def put(self, ch):
         if self.col > self.w:
             if self.row == self.h:
                 self.col = self.w
             else:
+                self.cont.add(self.row)
                 self.down()
         self.g[self.row - 1][self.col - 1] = ch
         self.col += 1
+        if self.col > self.w and self.row in self.cont:
+            # the row already continues on the next one: no pending state
+            self.down()
 
-    def text(self, bs):
-        for b in bs:
+    def char(self, b):
+        if b in (10, 13):
+            self.newline()
+        elif b == 7:
+            pass
+        elif b == 9:
+            for _ in range(8 - (min(self.col, self.w) - 1) % 8):
+                self.put(32)
+        elif b == 11:
+            self.row, self.col = max(self.top, 1), 1
+        elif b == 12:
+            for r in range(self.top, self.bot + 1):
+                self.g[r - 1] = [32] * self.w
+                self.cont.discard(r)
+            self.row, self.col = self.top, 1
+        else:
             self.put(b)
 
-    def print_value(self, bs):
-        """PRINT of one string: a string that does not fit on the rest of the line starts on the next line"""
+    def write(self, bs):
+        """one Console.write call"""
+        if bs:
+            self.start_write()
+            for b in bs:
+                self.char(b)
+
+    def text(self, bs):
+        self.write(bs)
+
+    def print_value(self, bs, can_break=True):
+        """PRINT of one string: a string whose first line does not fit on the rest of the line starts on the next
+        line; the string reaches the console in pieces that end with each CR / LF"""
         if not bs:
             return
+        width1 = 0
+        has_nl = False
+        for b in bs:
+            if b in (10, 13):
+                has_nl = True
+                break
+            width1 += -1 if b == 8 else 1 if b >= 32 else 0
         c = min(self.col, self.w)
-        if self.row != self.h and c != 1 and c - 1 + len(bs) > self.w:
-            self.down()
-        self.text(bs)
+        if can_break and self.row != self.h and c != 1 and c - 1 + width1 > self.w and not has_nl:
+            self.write([13])
+        piece = []
+        for b in bs:
+            piece.append(b)
+            if b in (10, 13):
+                self.write(piece)
+                piece = []
+        self.write(piece)
 
     def comma(self):
         c = min(self.col, self.w)
         zones = max(1, self.w // 14)
         nz = (c - 1) // 14 + 1
         if nz >= zones:
-            self.down()
+            self.write([13])
         else:
-            self.text([32] * (1 + 14 * nz - c))
+            self.print_value([32] * (1 + 14 * nz - c), can_break=False)
 
     def print_stmt(self, items):
         nl = True
@@ -144,14 +196,16 @@ class Ref(object):
                 nl = True
         if nl:
             if self.col > self.w:
-                self.down()
-            self.down()
+                self.write([13])
+            self.write([13])
 
     def error(self, err):
         if min(self.col, self.w) != 1:
             self.down()
-        self.text(list(MSG[err]) + [255])
-        self.down()
+        self.cont.discard(self.row - 1 if self.row > 1 else self.h)
+        self.write(list(MSG[err]))
+        self.write([255])
+        self.write([13])
 
     def reported(self):
         """(CSRLIN, POS) by the rule of the property: a pending wrap reports column 1 of the next row
@@ -159,6 +213,14 @@ class Ref(object):
         if self.col > self.w:
             return (self.row + 1 if self.row < self.bot else self.row), 1
         return self.row, self.col
+
+
+REF_CTRL = {7, 9, 10, 11, 12, 13}
+
+
+def ref_knows(bs):
+    """strings the reference terminal interprets: everything but the cursor movement codes 28-31"""
+    return not (set(bs) & {28, 29, 30, 31})
 
 
 def plain(bs):
@@ -170,8 +232,8 @@ class C36(core.Check):
     GEN = []
     PROPS = 'props/C36.v'
     MODEL_IMPORTS = ['model.Cursor']
-    QUICK_CASES = 700
-    THOROUGH_CASES = 7000
+    QUICK_CASES = 420
+    THOROUGH_CASES = 5000
     TRUSTED = ['hand model model/Cursor.v of TextScreen / VideoBuffer row operations / Console.write / SCRNFile.write / '
                'PRINT formatter (strings, ; and ,) / statement glue for the cga adapter, tied by correspondence after '
                'every statement (CSRLIN, POS(0), raw cursor fields, scroll window, width, hash of the whole character '
@@ -206,6 +268,16 @@ class C36(core.Check):
                      ['P', [['v', [65] * 100], ';']], ['P', [['v', [66] * 70]]], ['P', [['v', [67]]]]]},
             {'ops': [['K', 0], ['L', 25, 70, None], ['P', [['v', [83, 84]], ';']], ['V', 3, 24], ['L', 24, 80, None],
                      ['P', [['v', [65, 66, 67]], ';']], ['P', [['v', [68] * 81], ';']], ['F', 25, 70]]},
+            # vga: SCREEN 7/8/9 and WIDTH between them; start width 40; editor cursor keys
+            {'ops': [['S', 7], ['P', [['v', [65] * 41]]], ['W', 80], ['S', 9], ['W', 40], ['S', 8], ['S', 0], ['S', 3]],
+             'w': 80, 'vga': 1},
+            {'ops': [['P', [['v', [65] * 40], ';']], ['L', 24, 40, None], ['P', [['v', [66] * 2]]], ['W', 80], ['S', 7]],
+             'w': 40, 'vga': 0},
+            {'ops': [['P', [['v', [65] * 80], ';']], ['E', 2], ['P', [['v', [66]], ';']], ['E', 3], ['E', 3], ['E', 0], ['E', 0],
+                     ['L', 24, 80, None], ['E', 2], ['E', 1], ['T', [67] * 3], ['E', 4], ['E', 3], ['E', 5]]},
+            # stale continuation flag: the 100 characters leave row 23 flagged; refilling it moves on without overflow
+            {'ops': [['L', 24, 1, None], ['P', [['v', [65] * 100], ';']], ['L', 23, 1, None], ['P', [['v', [66] * 80], ';']],
+                     ['V', 1, 23], ['L', 22, 1, None], ['P', [['v', [67] * 160], ';']]]},
             # boundaries
             {'ops': [['P', [X80]], ['P', [X80, ';']], ['P', [['v', [89]]]]]},
             {'ops': [['L', 24, 1, None], ['P', [X80, ';']], ['P', [['v', [89]], ';']]]},
@@ -293,19 +365,23 @@ class C36(core.Check):
         if r < 0.88:
             return ['K', rng.randrange(2)]
         if r < 0.92:
-            return ['S', rng.choice([0, 1, 2, 0, 1, 2, 3, 7, 255, 256, -1])]
-        if r < 0.97 or not typed_ok:
+            return ['S', rng.choice([0, 1, 2, 0, 1, 2, 7, 8, 9, 3, 7, 255, 256, -1])]
+        if r < 0.95 or not typed_ok:
             return ['F', self._num(rng, 0, 25), self._num(rng, 0, width)]
-        n = rng.choice([1, 3, width, width + 5, 2 * width + 1])
-        return ['T', [65 + rng.randrange(26) for _ in range(n)]]
+        if r < 0.975:
+            n = rng.choice([1, 3, width, width + 5, 2 * width + 1])
+            return ['T', [65 + rng.randrange(26) for _ in range(n)]]
+        return ['E', rng.choice([0, 1, 2, 2, 3, 3, 4, 5])]
 
     def gen_cases(self, n):
         rng = self.rng
-        hist = {'general': 0, 'placement': 0, 'statusline': 0, 'malformed': 0, 'print_ctrl': 0, 'ops': {}}
+        hist = {'general': 0, 'placement': 0, 'statusline': 0, 'malformed': 0, 'print_ctrl': 0, 'ops': {}, 'config': {}}
         out = []
         for i in range(n):
             ops = []
-            width = 80
+            cfg = rng.random()
+            width, vga = (80, 0) if cfg < 0.65 else (40, 0) if cfg < 0.78 else (80, 1) if cfg < 0.94 else (40, 1)
+            width0 = width
             fam = i % 10
             if fam < 5:
                 hist['general'] += 1
@@ -316,8 +392,8 @@ class C36(core.Check):
                     ops.append(op)
                     if op[0] == 'W' and op[1] in (40, 80):
                         width = op[1]
-                    if op[0] == 'S' and op[1] in (1, 2):
-                        width = 40 if op[1] == 1 else 80
+                    if op[0] == 'S' and (op[1] in (1, 2) or (vga and op[1] in (7, 8, 9))):
+                        width = 40 if op[1] in (1, 7) else 80
             elif fam == 8:
                 hist['statusline'] += 1
                 # KEY OFF: LOCATE 25,c: PRINT "...";  then LOCATE / VIEW PRINT t TO 24 and output running past row 24
@@ -349,9 +425,12 @@ class C36(core.Check):
                 hist['placement'] += 1
                 # plain text on a cleared screen: setup, CLS, LOCATE, PRINTs of plain strings
                 if rng.random() < 0.5:
-                    op = rng.choice([['W', 40], ['S', 1], ['S', 2], ['W', 80], ['S', 0]])
+                    op = rng.choice([['W', 40], ['S', 1], ['S', 2], ['W', 80], ['S', 0]] + ([['S', 7], ['S', 8], ['S', 9]] if vga else []))
                     ops.append(op)
-                    width = {('W', 40): 40, ('S', 1): 40}.get((op[0], op[1]), 80)
+                    if op[0] == 'W':
+                        width = op[1]
+                    elif op[1] != 0:
+                        width = 40 if op[1] in (1, 7) else 80
                 if rng.random() < 0.3:
                     ops.append(['K', 1])
                 top, bot = 1, 24
@@ -396,7 +475,9 @@ class C36(core.Check):
                         ops.append(self._print(rng, 80, True, hist))
             for op in ops:
                 hist['ops'][op[0]] = hist['ops'].get(op[0], 0) + 1
-            out.append({'ops': ops})
+            ck = '%d/%s' % (width0, 'vga' if vga else 'cga')
+            hist['config'][ck] = hist['config'].get(ck, 0) + 1
+            out.append({'ops': ops, 'w': width0, 'vga': vga})
         self.histogram = hist
         return out
 
@@ -407,7 +488,7 @@ class C36(core.Check):
         if key in cache:
             return cache[key]
         snaps = []
-        with common.new_session() as s:
+        with common.new_session(video='vga' if case.get('vga') else 'cga', text_width=case.get('w', 80)) as s:
             s.start()
             impl = s._impl
             ts = impl.text_screen
@@ -429,7 +510,8 @@ class C36(core.Check):
                     'bra': bool(ts._bottom_row_allowed), 'top': ts.scroll_area.top, 'bot': ts.scroll_area.bottom,
                     'act': bool(ts.scroll_area.active), 'width': ts.mode.width, 'height': ts.mode.height,
                     'barvis': bool(ts._bottom_bar.visible),
-                    'modenr': {'cgatext80': 0, 'cgatext40': 0, '320x200x4': 1, '640x200x2': 2}.get(ts.mode.name, 99),
+                    'modenr': {'cgatext80': 0, 'cgatext40': 0, 'vgatext80': 0, 'vgatext40': 0, '320x200x4': 1,
+                               '640x200x2': 2, '320x200x16': 7, '640x200x16': 8, '640x350x16': 9}.get(ts.mode.name, 99),
                     'csw': bool(impl.display.colorswitch),
                     'grid': [[ord(c) for c in r] for r in g],
                     'wraps': [bool(page.wraps(i + 1)) for i in range(ts.mode.height)],
@@ -446,6 +528,9 @@ class C36(core.Check):
                                 val = int(v)
                         elif op[0] == 'T':
                             ts.write_chars(bytes(op[1]), do_scroll_down=True)
+                        elif op[0] == 'E':
+                            # what Console._interact calls for the cursor keys / HOME / CTRL+HOME
+                            [ts.up, ts.down, ts.incr_pos, ts.decr_pos, lambda: ts.set_pos(1, 1), ts.clear_view][op[1]]()
                         else:
                             s.execute(stmt_text(op))
                         if errs:
@@ -510,9 +595,11 @@ class C36(core.Check):
                 ts.append('SScreenFn (%d) (%d)' % (op[1], op[2]))
             elif k == 'T':
                 ts.append('STyped %s' % core.zl(op[1]))
+            elif k == 'E':
+                ts.append('SEdit %d' % op[1])
             else:
                 raise ValueError(op)
-        return '(run_case [%s])' % '; '.join(ts)
+        return '(run_case_on %d %s [%s])' % (case.get('w', 80), 'true' if case.get('vga') else 'false', '; '.join(ts))
 
     def nontrivial(self, case, out):
         snaps = self._trace(case)
@@ -522,7 +609,8 @@ class C36(core.Check):
     @staticmethod
     def _ref(pre):
         return Ref(pre['grid'], pre['row'], pre['col'], pre['ovf'] and pre['col'] == pre['width'],
-                   pre['top'], pre['bot'], pre['width'], pre['height'])
+                   pre['top'], pre['bot'], pre['width'], pre['height'],
+                   cont=[i + 1 for i, w in enumerate(pre['wraps']) if w])
 
     @staticmethod
     def _same(ref, post, what):
@@ -539,6 +627,7 @@ class C36(core.Check):
 
     def oracle(self, case, out):
         snaps = self._trace(case)
+        known = None
         for k, op in enumerate(case['ops']):
             if k + 1 >= len(snaps):
                 break
@@ -563,6 +652,11 @@ class C36(core.Check):
             # the cursor is in the VIEW PRINT window (by what CSRLIN reported and the cursor row; no internal flag)
             normal = pre['top'] <= pre['csrlin'] <= pre['bot'] and pre['top'] <= pre['row'] <= pre['bot']
             nowrapflags = not any(pre['wraps'])
+            # K36a: an overflow flag that survived a move away from the last column
+            stale = pre['ovf'] and pre['col'] != pre['width']
+            if post['ovf'] and post['col'] != post['width'] and known is None:
+                known = ('%s: overflow still pending in column %d, not the last column: POS(0) reports %d but the next '
+                         'character is written one column further right [K36a]' % (what, post['col'], post['pos']))
             if op[0] == 'L':
                 r, c, cur = op[1], op[2], op[3]
                 if not (i16(r) and i16(c) and i16(cur)):
@@ -580,7 +674,7 @@ class C36(core.Check):
                     # Illegal function call / Overflow, and nothing but the message changes
                     if err != want:
                         return '%s: expected error %d, got %r' % (what, want, err)
-                    if normal and nowrapflags:
+                    if normal and not stale:
                         ref = self._ref(pre)
                         ref.error(want)
                         bad = self._same(ref, post, what + ' (rejected: only the error message may appear)')
@@ -630,14 +724,28 @@ class C36(core.Check):
                                 what, i + 1, pre['top'], pre['bot'])
                 if op[0] == 'P':
                     items = op[1]
-                    if all(it in (',', ';') or plain(it[1]) for it in items) and normal and nowrapflags:
+                    if all(it in (',', ';') or ref_knows(it[1]) for it in items) and normal and not stale:
                         ref = self._ref(pre)
                         ref.print_stmt(items)
-                        bad = self._same(ref, post, what + ' (plain text placement)')
+                        bad = self._same(ref, post, what + ' (text placement per the reference terminal)')
                         if bad:
                             return bad
                 elif normal and nowrapflags and self._typed_ref(pre, op[1]) != post['grid']:
                     return '%s: typed text: rows of the window are not shifted down by one at each wrap' % what
+            elif op[0] == 'E':
+                if op[1] < 5 and post['grid'] != pre['grid']:
+                    return '%s: a cursor key changed the screen content' % what
+                if op[1] in (0, 1) and normal and not (pre['top'] <= post['row'] <= pre['bot']):
+                    return '%s: cursor up/down left the VIEW PRINT window' % what
+                if op[1] in (0, 1, 2, 3) and abs(post['row'] - pre['row']) > 1:
+                    return '%s: a cursor key moved the cursor by more than one row' % what
+                if op[1] == 5:
+                    for i in range(h):
+                        inside = pre['top'] <= i + 1 <= pre['bot']
+                        if inside and any(c != 32 for c in post['grid'][i]):
+                            return '%s: CTRL+HOME left row %d of the window uncleared' % (what, i + 1)
+                        if not inside and post['grid'][i] != pre['grid'][i]:
+                            return '%s: CTRL+HOME changed row %d outside the window' % (what, i + 1)
             elif op[0] == 'C' and err is None and op[1] in (None, 0, 2) and i16(op[1]):
                 whole = op[1] == 0 or (op[1] is None and not pre['act'])
                 a, b = (1, h) if whole else (pre['top'], pre['bot'])
@@ -680,7 +788,24 @@ class C36(core.Check):
             elif op[0] == 'K' and err is None:
                 if post['grid'][:h - 1] != pre['grid'][:h - 1] or (post['row'], post['col']) != (pre['row'], pre['col']):
                     return '%s: KEY ON/OFF changed rows 1-24 or moved the cursor' % what
-        return None
+        return known
+
+    K36A = {'ops': [['P', [['v', [88] * 80 + [28]], ';']], ['P', [['v', [65]], ';']]]}
+
+    def known_match(self, finding, case, out):
+        if finding.get('id') != 'K36a':
+            return False
+        why = self.oracle(case, out)
+        return bool(why) and '[K36a]' in why
+
+    def known_rerun(self, finding):
+        if finding.get('id') != 'K36a':
+            return True
+        snaps = self._trace(self.K36A)
+        # after 80 characters and a cursor-right: column 1 of the next row with the overflow still pending,
+        # POS(0) = 1, and the next character lands in column 2
+        return (snaps[1]['ovf'] and snaps[1]['col'] == 1 and snaps[1]['pos'] == 1
+                and snaps[2]['grid'][1][0] == 32 and snaps[2]['grid'][1][1] == 65)
 
     @staticmethod
     def _typed_ref(pre, bs):
@@ -704,6 +829,12 @@ class C36(core.Check):
         return g
 
     def shrink_candidates(self, case):
+        cfg = {k: v for k, v in case.items() if k != 'ops'}
+        for c in self._shrink_ops(case):
+            c.update(cfg)
+            yield c
+
+    def _shrink_ops(self, case):
         ops = case['ops']
         n = len(ops)
         for i in range(n):
